@@ -1,19 +1,20 @@
-\* (i) Bidirectional - behaviour generation by transition coverage: bhist is outside the VIEW,
-\* every transition (state, action) of the state graph prints the shortest history reaching it
+\* (i) Bidirectional - SEEDED FAULT (C02/r4m2), liveness view.  THIS RUN MUST FAIL with a temporal property violation
+\* (BTold / BReturnsWhenOneSideEnds): the lasso is "A fails; A->B ends with a read error and tells nobody; the passive peer B
+\* waits for ever, the copier B->A sits in B.Read for ever, Bidirectional never returns".
 CONSTANTS
-  MaxSend = @@MAXSEND@@
+  MaxSend = 1
   EofWithData = TRUE
-  ShapesA <- LocalShapes
-  ShapesB <- @@SHAPESB@@
+  ShapesA <- CwLocal
+  ShapesB <- CwLocal
   DevDeadlineAt = "none"
   DevDeadlineHits = {"read"}
   Monitor = FALSE
   IdleMax = 2
   DevMonNoFeed = FALSE
-  Reactive = FALSE
-  DevNoSignalOnError = FALSE
+  Reactive = TRUE
+  DevNoSignalOnError = TRUE
   DevCloseWriterFallback = FALSE
-  Emit = @@EMIT@@
+  Emit = FALSE
   Classes = {1}
   BatchSize = 32
   BatchBuf = 22
@@ -34,8 +35,7 @@ CONSTANTS
   DevQueueRefs = FALSE
   DevSockDeadline = FALSE
   DevDropOnClose = FALSE
-INIT BInit
-NEXT BNext
-VIEW bview
-INVARIANTS BTypeOK BPipe BComplete BReverseKeepsFlowing BNoSpuriousEnd BNoSpuriousWriteEnd BNoDeadline BMonitorOnlyIdle BToldSafe
+SPECIFICATION BSpec
+INVARIANTS BTypeOK BPipe BComplete
+PROPERTIES BTold BReturnsWhenOneSideEnds
 CHECK_DEADLOCK FALSE
